@@ -35,7 +35,7 @@ CLAIMS = {
         'replacement all surviving nodes end at mode_map and the new sub-tree lands rigidly (C01_frame_expr_replace). Partial: the element part for separator lists / statement '
         'blocks and handler glue are not modelled - they are decided by the oracle: after every successful op of random edit sequences (all public entry points, three code forms, '
         'random options with norm=True) the source is re-parsed by CPython and compared in types, fields, ctx and all positions. Trace correspondence replays sampled _offset/_put_src '
-        'calls of those edits on the Coq models. par() / unpar() on every expression and pattern node keep the tree equal to the parse of its source (AnnAssign.simple, annotation targets, nodes that cannot take parentheses). Also: slices re-indented line by line with per-line column offsets; try handlers removed one by one through every entry point.',
+        'calls of those edits on the Coq models. par() / unpar() on every expression and pattern node keep the tree equal to the parse of its source (AnnAssign.simple, annotation targets, nodes that cannot take parentheses). Also: slices re-indented line by line with per-line column offsets; try handlers removed one by one through every entry point. Delimiters around a node (models/Delimit.v over the TRANSLATED _put_src / _offset flags of _delimit_node, _parenthesize_grouping, _unparenthesize_grouping): every node beside or below the node keeps its text, also one that starts exactly where it ended (format specification of an f-string field), ancestors grow by the delimiters, unpar undoes par on every node; correspondence with the AST position of every node after par(force=True) / unpar() on every expression and pattern node.',
    note='Trusted: Coq kernel/vm_compute; translators; CPython ast (OH1); hand models tied by (trace) correspondence; known_findings.json lists one open finding class (arglike positional after keyword).',
    design='DESIGN.md section 4 C01'),
  'C12': dict(
@@ -160,7 +160,9 @@ CLAIMS = {
         'pattern); a successful edit leaves the algebraic text splice. Partial: equality of the statement-level reparse with a whole-file parse, exceptions inside _put_src/_set_ast, root identity are decided '
         'by the oracle: random sequences of put_src(reparse) on/off node boundaries and across statements, raw node puts and reparse() with valid, invalid, indentation-changing and statement-splitting text; '
         'raise => source and ast.dump(with positions) unchanged and the splice is not a valid module; success => source == splice and tree == ast.parse incl. positions. Two defect families found this way '
-        'were repaired in /repo. Deterministic: header edits of ExceptHandler / match_case roots, also with header text that brings statements of its own.',
+        'were repaired in /repo. Deterministic: header edits of ExceptHandler / match_case roots, also with header text that brings statements of its own; negative coordinates; blanks at statement starts; edits in the comments / empty '
+        'lines around fragment roots. models/Scaffold.v: the copy in which a column-0 statement is reparsed alone receives an edit at or below its first kept line exactly like the real source, an edit above it is lost; a recorder around '
+        'fst_raw._reparse_raw_base checks copy == scaffold and the hypothesis on every statement-level reparse.',
    note='Trusted: Coq kernel/vm_compute; translator py/py2v/gen_raweffects.py (fail-closed classification tables: which calls may raise / mutate live state / touch only the scratch copy); CPython parser as reference. No axioms.',
    design='DESIGN.md section 4 C10'),
  'C13': dict(
